@@ -11,6 +11,6 @@ CHECKS["C03"] = dict(
           "Non-trivial = history ending with >=3 committed domains that contains a rejected conflicting operation followed by an accepted commit; distinct by script hash. TestC03Intervals: OverlapsWith/ContainsStamp vs the half-open definition on valid non-empty ranges."),
     assumptions=["time-range deletes are issued only while no writer is open on the channel (the unary layer serialises them through the control gate)"],
     tests=[dict(name="TestC03", quick=dict(cases=15000, shards=4), thorough=dict(cases=40000, shards=16, timeout=2400)),
-           dict(name="TestC03Loose", quick=dict(cases=40000, shards=4), thorough=dict(cases=60000, shards=8, timeout=2400)),
+           dict(name="TestC03Loose", quick=dict(cases=40000, shards=4), thorough=dict(cases=300000, shards=16, timeout=2400)),
            dict(name="TestC03Intervals", quick=dict(cases=20000, shards=1), thorough=dict(cases=200000, shards=2))],
 )
